@@ -81,6 +81,17 @@ class Obj:
         self.f = {}
 
 
+class AbsVal:
+    """std::abs(x) of a symbolic real: only ever compared, so comparisons are decided on squares"""
+    __slots__ = ("x",)
+
+    def __init__(self, x):
+        self.x = x
+
+    def sq(self):
+        return self.x * self.x
+
+
 class Mat:
     """src/matrix.hpp Matrix<T> / Vector<T>: a handle (rows, cols, stride, data pointer); copies share the buffer"""
     def __init__(self, rows, cols, data, is_vec=False):
@@ -595,6 +606,9 @@ class Interp:
                 return self.fit(q if op == "/" else a - q * b, ty, op)
             return a / b
         if op in ("<", ">", "<=", ">=", "==", "!="):
+            if isinstance(a, AbsVal) or isinstance(b, AbsVal):
+                a = a.sq() if isinstance(a, AbsVal) else a * a
+                b = b.sq() if isinstance(b, AbsVal) else b * b
             if isinstance(a, Ptr) or isinstance(b, Ptr) or a is None or b is None:
                 same = (a is b) or (isinstance(a, Ptr) and isinstance(b, Ptr) and a.buf is b.buf and a.off == b.off)
                 return same if op == "==" else not same
@@ -728,6 +742,13 @@ class Interp:
             raise xa.HarnessError("memcpy is not modelled")
         if name in ("printf", "puts"):
             return 0
+        if name in ("abs", "fabs"):
+            v = self.rv(argn[0])
+            if isinstance(v, xa.SC):
+                return AbsVal(v)
+            if isinstance(v, si.SI):
+                raise xa.HarnessError("abs of a symbolic integer")
+            return abs(v)
         if name in ("min", "max"):
             a, b = self.rv(argn[0]), self.rv(argn[1])
             c = self.truth(b < a) if name == "min" else self.truth(a < b)
